@@ -232,6 +232,9 @@ func (e *executor[R]) executeAsync(fn func(exec Execution[R]) (R, error), withEx
 		ctx, cancelFunc = context.WithCancel(ctx)
 	}
 	exec := newExecution[R](ctx)
+	// Let the execution cancel its context itself, so that ExecutionResult.Cancel records the cancel result and cancels the
+	// context atomically with respect to InitializeRetry, which would otherwise clear the cancel result in between.
+	exec.cancelFunc = cancelFunc
 	result := &executionResult[R]{
 		execution:  exec,
 		cancelFunc: cancelFunc,
